@@ -12,6 +12,7 @@ import time
 VERIF = os.path.dirname(os.path.dirname(os.path.abspath(__file__)))
 COQ = os.path.join(VERIF, "coq")
 HARNESS = os.path.join(VERIF, "harness")
+REPO = os.environ.get("KV_REPO", "/repo")
 OCAML = os.path.join(VERIF, "ocaml")
 EVID = os.path.join(VERIF, "evidence")
 REPLAYS = os.path.join(EVID, "replays")
@@ -149,7 +150,7 @@ def sh(cmd, cwd=None, timeout=1800, env=None, check=True, quiet=True):
 
 def build_harness(profiles=("dev",), features=()):
     """cargo build of the harness against /repo's working tree (incremental)."""
-    lock_src = "/repo/Cargo.lock"
+    lock_src = os.path.join(REPO, "Cargo.lock")
     lock_dst = os.path.join(HARNESS, "Cargo.lock")
     if os.path.exists(lock_src) and not os.path.exists(lock_dst):
         shutil.copy(lock_src, lock_dst)
@@ -170,15 +171,14 @@ def build_harness(profiles=("dev",), features=()):
 
 def coq_make(targets, timeout=1500):
     """Full .vo build of the given targets (relative to coq/)."""
-    if not os.path.exists(os.path.join(COQ, "Makefile")) or \
-            os.path.getmtime(os.path.join(COQ, "Makefile")) < os.path.getmtime(os.path.join(COQ, "_CoqProject")):
-        sh("coq_makefile -f _CoqProject -o Makefile", cwd=COQ)
+    sh("./gen.sh", cwd=COQ)
     p = sh(["make", "-j%d" % NPROC] + list(targets), cwd=COQ, timeout=timeout, check=False)
     return p.returncode == 0, p.stdout
 
 
 def build_model_driver():
     """Extraction (ExtrOcamlBasic only) + OCaml driver; rebuilt when any model is newer."""
+    sh("./gen.sh", cwd=COQ)
     ok, out = coq_make(["theories/Extract/Dispatch.vo"])
     if not ok:
         raise BuildError("model does not compile:\n" + out[-6000:])
